@@ -117,7 +117,7 @@ func genC09World(r *lib.Rng) *c09World {
 		for i, d := range []string{"sa", "sb", "sc", "sd"} {
 			w.files[d+"/util.lua"] = fmt.Sprintf("local M = {}\nM.who = %d\nfunction M.run(%s) end\nreturn M\n", i, strings.Repeat("p,", i)+"q")
 		}
-		w.files["sa/main2.lua"] = "local u = require(\"util\")\nprint(u.who)\nu.run(1, 2)\n"
+		w.files["sc/main2.lua"] = "local u = require(\"util\")\nprint(u.who)\nu.run(1, 2)\n"
 	}
 	w.user = "user.lua"
 	w.files[w.user] = strings.Join(u, "\n") + "\n"
@@ -208,9 +208,9 @@ func c09Observe(dir string, w *c09World, order []string) (map[string]string, err
 		obs["modmember"] = d
 	}
 	if w.sibMod {
-		sess.DidOpen("sa/main2.lua", w.files["sa/main2.lua"])
+		sess.DidOpen("sc/main2.lua", w.files["sc/main2.lua"])
 		sess.Sync()
-		locs, err := sess.Definition("sa/main2.lua", 1, len("print(u."))
+		locs, err := sess.Definition("sc/main2.lua", 1, len("print(u."))
 		if err != nil {
 			return nil, err
 		}
@@ -338,8 +338,8 @@ func runC09(res *lib.Result, tier string, seed int64, args []string) error {
 					res.AddViolation("impl-vs-model", fmt.Sprintf("go-to-definition of %s leads to %s, the dominating definition is %s", g, obs["def:"+g], want), caseText, false)
 				}
 			}
-			if w.sibMod && obs["sibmember"] != "sa/util.lua" {
-				res.AddViolation("impl-vs-model", fmt.Sprintf("require(\"util\") from sa/main2.lua loads %s; the candidate in the same directory (sa/util.lua) has the strictly best score (C18 model)", obs["sibmember"]), caseText, false)
+			if w.sibMod && obs["sibmember"] != "sc/util.lua" {
+				res.AddViolation("impl-vs-model", fmt.Sprintf("require(\"util\") from sc/main2.lua loads %s; the candidate in the same directory (sc/util.lua) has the strictly best score (C18 model)", obs["sibmember"]), caseText, false)
 			}
 			if first == nil {
 				first = obs
